@@ -64,7 +64,17 @@ class TypeInfo:
         self.raw = t.endswith('*')
         t = t.rstrip('&*')
         self.bare = t                      # ns::Name<args>
-        self.name = t.split('<')[0].split('::')[-1]
+        # unqualified name: the last component once template argument lists are removed
+        # (ab::C<int>::shared_ptr -> shared_ptr, ns::Name<args> -> Name)
+        flat, depth = [], 0
+        for ch in t:
+            if ch == '<':
+                depth += 1
+            elif ch == '>':
+                depth -= 1
+            elif depth == 0:
+                flat.append(ch)
+        self.name = ''.join(flat).split('::')[-1]
 
     def family(self, enums=()) -> str:
         n = self.name
